@@ -313,7 +313,7 @@ func (sh *shadow) after(r *hx.Run, w *world, op []string, pre, post *snapshot, c
 			r.Viol("C25:outsider-vote-accepted:fee", fmt.Sprintf("updateFee by %s, which is not a current consensus validator, was accepted", op[2]))
 		}
 	}
-	if name == "vote" || name == "sig" || name == "deposit" {
+	if name == "vote" || name == "sig" || name == "deposit" || name == "rdeposit" {
 		sh.votes(r, name, op, pre, cr)
 	}
 }
@@ -557,7 +557,8 @@ func (sh *shadow) votes(r *hx.Run, name string, op []string, pre *snapshot, cr c
 	if name == "vote" {
 		id = "vote|" + op[2]
 		a, _ = parseAddr(op[3])
-	} else if name == "deposit" {
+	} else if name == "deposit" || name == "rdeposit" {
+		// the ledger of one exact payload: the id token is the hash of source chain, height and the whole payload
 		id = "vote|" + op[6]
 		a, _ = parseAddr(op[2])
 	} else {
@@ -573,17 +574,17 @@ func (sh *shadow) votes(r *hx.Run, name string, op []string, pre *snapshot, cr c
 		}
 	}
 	cons := pre.consensusAddrs()
-	firedNow := !cr.err && ((name == "vote" || name == "deposit") && cr.ret == "1" || name == "sig" && cr.fired("AddSignatureQuorum"))
+	firedNow := !cr.err && ((name == "vote" || name == "deposit" || name == "rdeposit") && cr.ret == "1" || name == "sig" && cr.fired("AddSignatureQuorum"))
 	if firedNow && sh.released[id] {
 		r.Viol("C25:released-twice:"+name, fmt.Sprintf("%s: quorum outcome produced a second time for %s", name, id))
 	}
-	if (name == "sig" || name == "deposit") && !witness {
+	if (name == "sig" || name == "deposit" || name == "rdeposit") && !witness {
 		if !cr.err {
 			r.Viol("C25:vote-accepted-without-witness:"+name, name+" accepted a vote for an address that did not sign the transaction")
 		}
 		return
 	}
-	if (name == "vote" || name == "deposit") && sh.released[id] {
+	if (name == "vote" || name == "deposit" || name == "rdeposit") && sh.released[id] {
 		if firedNow {
 			return
 		}
@@ -598,7 +599,7 @@ func (sh *shadow) votes(r *hx.Run, name string, op []string, pre *snapshot, cr c
 		}
 		return
 	}
-	if cr.err && name == "deposit" {
+	if cr.err && (name == "deposit" || name == "rdeposit") {
 		// allowed only when this vote reaches the quorum and the released message cannot be handed on (payload
 		// undecodable or source transaction already done): the whole transaction is reverted, the vote is not recorded
 		tentative := 0
